@@ -12,7 +12,7 @@ import (
 func init() {
 	register(&propInfo{
 		ID:          "C02",
-		Explanation: "Value-origin and path analysis of the response-routing mechanism of the WebSocket client: (R02.1) request ids are minted only by sync/atomic operations on the client's counter, pass through the id normaliser, and nothing else is stored in a request's id; (R02.2) every id-bearing request that is accepted is registered in the in-flight table under its own id, as itself; (R02.3) every mailbox is a fresh channel of capacity >= 1; (R02.4) the response handler delivers to the mailbox of the entry looked up under the response's own id, with result/error/id taken from that same frame; (R02.5) delivery is single: the response handler removes the entry on every path after delivering, the failer empties the table, the accept arm answers only requests it did not register; (R02.6) frames are executed in arrival order: one executor goroutine started outside any loop, enqueue before the next read is started, synchronous dispatch down to the response / channel handlers; (R02.7) the frame decode target is a zero-valued allocation made per frame (decoding into a recycled struct would alias buffers already handed to callers and handlers). (R02.9) the request queue is unbuffered: the hand-over to the connection loop is a rendezvous, so no request is left in a buffer when the loop exits. (R02.10) the connection-unusable mark is set before every loss signal and cleared only after a new socket is installed. (R02.11) no handler runs on the frame executor; (R02.12) the reverse client is built per connection; (R02.13) every hand-over to the loop watches the current exit signal. (R02.14) the frame queue the executor reads from is made once, at construction. (R02.15) a frame taken off the socket is always queued for the executor. (R02.16) a request whose header the HTTP transport writes to carries a clone or a fresh map. (R02.17) nothing waits (channel operation, WaitGroup, Cond) between the hand-over of a call to its goroutine and the reflective call of the user method: the start of a handler never depends on the end of others.",
+		Explanation: "Value-origin and path analysis of the response-routing mechanism of the WebSocket client: (R02.1) request ids are minted only by sync/atomic operations on the client's counter, pass through the id normaliser, and nothing else is stored in a request's id; (R02.2) every id-bearing request that is accepted is registered in the in-flight table under its own id, as itself; (R02.3) every mailbox is a fresh channel of capacity >= 1; (R02.4) the response handler delivers to the mailbox of the entry looked up under the response's own id, with result/error/id taken from that same frame; (R02.5) delivery is single: the response handler removes the entry on every path after delivering, the failer empties the table, the accept arm answers only requests it did not register; (R02.6) frames are executed in arrival order: one executor goroutine started outside any loop, enqueue before the next read is started, synchronous dispatch down to the response / channel handlers; (R02.7) the frame decode target is a zero-valued allocation made per frame (decoding into a recycled struct would alias buffers already handed to callers and handlers). (R02.9) the request queue is unbuffered: the hand-over to the connection loop is a rendezvous, so no request is left in a buffer when the loop exits. (R02.10) the connection-unusable mark is set before every loss signal and cleared only after a new socket is installed. (R02.11) no handler runs on the frame executor; (R02.12) the reverse client is built per connection; (R02.13) every hand-over to the loop watches the current exit signal. (R02.14) the frame queue the executor reads from is made once, at construction. (R02.15) a frame taken off the socket is always queued for the executor. (R02.16) a request whose header the HTTP transport writes to carries a clone or a fresh map. (R02.17) nothing waits (channel operation, WaitGroup, Cond) between the hand-over of a call to its goroutine and the reflective call of the user method: the start of a handler never depends on the end of others. (R02.18) the accept arm answers or registers every accepted request on every path.",
 		NotDecided:  "That a given schedule completes; HTTP (one exchange per call, no shared routing state); the redundant response-id equality checks on the caller side (defensive only).",
 		Assumptions: []string{"encoding/json reuses the backing array of a pre-populated []byte/RawMessage field when decoding into it", "the connection loop is the only receiver of the request queue"},
 		Run:         runC02,
@@ -236,6 +236,8 @@ func runC02(c *Ctx) {
 	c.headerNotShared("R02.16")
 	c.ruleOpt("R02.17", "the start of a handler never waits for other handlers: between the frame executor handing a call to its goroutine and the user method running there is no channel operation, WaitGroup or Cond wait (a cap on concurrently served calls deadlocks calls whose completion depends on a later call, cancel or reverse-call response on the same connection)")
 	c.noWaitBeforeHandler("R02.17")
+	c.rule("R02.18", "every call returns: the connection loop answers or registers every request it accepted, on every path — notifications included (a request taken from the queue while the link is down and neither answered nor registered leaves its caller blocked for good)")
+	c.acceptArmRule("R02.18")
 	c.rule("R02.15", "a frame taken off the socket is always handed to the executor: the send on the frame queue waits as long as it takes (no timer or default branch lets the reader discard a frame — the call it answers would never complete)")
 	c.frameNeverDiscarded("R02.15")
 	c.rule("R02.14", "the frame queue the executor reads from is made once, when the connection object is set up: replacing it later (on reconnect) leaves the executor parked on the old queue and no response is dispatched any more")
